@@ -59,7 +59,12 @@ pub trait ArchX: Archetype + Sized + 'static {
     fn of(w: &Wa) -> &Self;
     fn of_mut(w: &mut Wa) -> &mut Self;
     fn make(row: &[(u64, u64)]) -> Self::Components;
-    fn comps_row(c: &Self::Components) -> Row;
+    /// the row of a components struct handed back by gecs, read through `Components::get`,
+    /// `get_mut` and `into_tuple`; if the three disagree every value is poisoned (u64::MAX)
+    fn comps_row(c: Self::Components) -> Row;
+    /// `Iterator` laws of `Archetype::iter()` / `iter_mut()` against a plain `for` pass: `count`,
+    /// `last`, `nth`, `skip`, `step_by`, `size_hint` (labels of the ones that fail)
+    fn iter_laws(a: &mut Self) -> Vec<&'static str>;
     fn view_row(v: &Self::View<'_>) -> Row;
     fn view_set(v: &mut Self::View<'_>, col: usize, val: u64);
     fn borrow_row(b: &Self::Borrow<'_>) -> Row;
@@ -105,8 +110,77 @@ macro_rules! impl_archx {
                 let mut it = row.iter();
                 ($({ let (i, v) = *it.next().expect("row too short"); <$C as Comp>::make(i, v) },)*).into()
             }
-            fn comps_row(c: &Self::Components) -> Row {
-                vec![$(tv(c.get::<$C>())),*]
+            fn comps_row(mut c: Self::Components) -> Row {
+                let r1: Row = vec![$(tv(c.get::<$C>())),*];
+                let r2: Row = vec![$(tv(&*c.get_mut::<$C>())),*];
+                // the tuple is dropped as a whole at the end (fields in order, like the struct)
+                let t = c.into_tuple();
+                let r3: Row = { let ($(ref $v,)*) = t; vec![$(tv($v)),*] };
+                if r1 != r2 || r1 != r3 {
+                    return r1.iter().map(|(i, _)| (*i, u64::MAX)).collect();
+                }
+                r1
+            }
+            fn iter_laws(a: &mut Self) -> Vec<&'static str> {
+                let mut bad: Vec<&'static str> = Vec::new();
+                let plain: Vec<(EntityAny, Row)> = Self::rows_iter(a);
+                let n = plain.len();
+                let ks = [0usize, 1, n / 2, n.saturating_sub(1), n, n + 3];
+                {
+                    let conv = |(e, $($v),*): (&Entity<$A>, $(&$C),*)| ((*e).into_any(), vec![$(tv($v)),*]);
+                    if a.iter().count() != n { bad.push("law:iter.count"); }
+                    if a.iter().last().map(conv) != plain.last().cloned() { bad.push("law:iter.last"); }
+                    for &k in &ks {
+                        let mut it = a.iter();
+                        let x = it.nth(k).map(conv);
+                        let rest: Vec<(EntityAny, Row)> = it.map(conv).collect();
+                        if x != plain.get(k).cloned() || rest[..] != plain[(k + 1).min(n)..] { bad.push("law:iter.nth"); }
+                        let sk: Vec<(EntityAny, Row)> = a.iter().skip(k).map(conv).collect();
+                        if sk[..] != plain[k.min(n)..] { bad.push("law:iter.skip"); }
+                    }
+                    for st in [1usize, 2, 3] {
+                        let got: Vec<(EntityAny, Row)> = a.iter().step_by(st).map(conv).collect();
+                        let exp: Vec<(EntityAny, Row)> = plain.iter().step_by(st).cloned().collect();
+                        if got != exp { bad.push("law:iter.step_by"); }
+                    }
+                    let mut it = a.iter();
+                    let mut left = n;
+                    loop {
+                        let (lo, hi) = it.size_hint();
+                        if lo > left || hi.map_or(false, |h| h < left) { bad.push("law:iter.size_hint"); }
+                        if it.next().is_none() { break; }
+                        left = left.saturating_sub(1);
+                    }
+                }
+                {
+                    let conv = |(e, $($v),*): (&Entity<$A>, $(&mut $C),*)| ((*e).into_any(), vec![$(tv(&*$v)),*]);
+                    if a.iter_mut().count() != n { bad.push("law:iter_mut.count"); }
+                    if a.iter_mut().last().map(conv) != plain.last().cloned() { bad.push("law:iter_mut.last"); }
+                    for &k in &ks {
+                        let mut it = a.iter_mut();
+                        let x = it.nth(k).map(conv);
+                        let rest: Vec<(EntityAny, Row)> = it.map(conv).collect();
+                        if x != plain.get(k).cloned() || rest[..] != plain[(k + 1).min(n)..] { bad.push("law:iter_mut.nth"); }
+                        let sk: Vec<(EntityAny, Row)> = a.iter_mut().skip(k).map(conv).collect();
+                        if sk[..] != plain[k.min(n)..] { bad.push("law:iter_mut.skip"); }
+                    }
+                    for st in [1usize, 2, 3] {
+                        let got: Vec<(EntityAny, Row)> = a.iter_mut().step_by(st).map(conv).collect();
+                        let exp: Vec<(EntityAny, Row)> = plain.iter().step_by(st).cloned().collect();
+                        if got != exp { bad.push("law:iter_mut.step_by"); }
+                    }
+                    let mut it = a.iter_mut();
+                    let mut left = n;
+                    loop {
+                        let (lo, hi) = it.size_hint();
+                        if lo > left || hi.map_or(false, |h| h < left) { bad.push("law:iter_mut.size_hint"); }
+                        if it.next().is_none() { break; }
+                        left = left.saturating_sub(1);
+                    }
+                }
+                let mut uniq: Vec<&'static str> = Vec::new();
+                for b in bad { if !uniq.contains(&b) { uniq.push(b); } }
+                uniq
             }
             fn view_row(v: &Self::View<'_>) -> Row {
                 vec![$(tv(v.component::<$C>())),*]
